@@ -1916,9 +1916,22 @@ func (e *CoreExtension) filterNumberFormat(value interface{}, args ...interface{
 		return nil, fmt.Errorf("number_format: %d decimals requested, at most %d are supported", decimals, maxNumberFormatDecimals)
 	}
 
+	// A negative number of decimals is not a valid fmt precision: format without decimals
+	if decimals < 0 {
+		decimals = 0
+	}
+
 	// Format the number
 	format := "%." + strconv.Itoa(decimals) + "f"
 	str := fmt.Sprintf(format, num)
+
+	// Integers are written out digit by digit: float64 only holds them exactly up to 2^53
+	if digits, ok := integerDigits(value); ok {
+		str = digits
+		if decimals > 0 {
+			str += "." + strings.Repeat("0", decimals)
+		}
+	}
 
 	// Split into integer and fractional parts
 	parts := strings.Split(str, ".")
@@ -1965,6 +1978,33 @@ func (e *CoreExtension) filterNumberFormat(value interface{}, args ...interface{
 
 // maxNumberFormatDecimals bounds the number of decimals number_format produces
 const maxNumberFormatDecimals = 1000
+
+// integerDigits returns the decimal digits of a Go integer value
+func integerDigits(value interface{}) (string, bool) {
+	switch v := value.(type) {
+	case int:
+		return strconv.FormatInt(int64(v), 10), true
+	case int8:
+		return strconv.FormatInt(int64(v), 10), true
+	case int16:
+		return strconv.FormatInt(int64(v), 10), true
+	case int32:
+		return strconv.FormatInt(int64(v), 10), true
+	case int64:
+		return strconv.FormatInt(v, 10), true
+	case uint:
+		return strconv.FormatUint(uint64(v), 10), true
+	case uint8:
+		return strconv.FormatUint(uint64(v), 10), true
+	case uint16:
+		return strconv.FormatUint(uint64(v), 10), true
+	case uint32:
+		return strconv.FormatUint(uint64(v), 10), true
+	case uint64:
+		return strconv.FormatUint(v, 10), true
+	}
+	return "", false
+}
 
 func (e *CoreExtension) filterAbs(value interface{}, args ...interface{}) (interface{}, error) {
 	// Integers stay integers: going through float64 loses digits beyond 2^53
@@ -2015,6 +2055,15 @@ func (e *CoreExtension) filterRound(value interface{}, args ...interface{}) (int
 	if len(args) > 1 {
 		if m, ok := args[1].(string); ok {
 			method = strings.ToLower(m)
+		}
+	}
+
+	// An integer is already rounded to any non-negative precision; going through
+	// float64 would change integers beyond 2^53
+	if precision >= 0 {
+		switch value.(type) {
+		case int, int64:
+			return value, nil
 		}
 	}
 
